@@ -16,7 +16,7 @@ from mc.engine import Outcome, sha
 ID = 'C06'
 ENGINE = 'E1 full product over finite value domains'
 RULE = ("every value of the per-code domain listed in bounds is encoded by write_struct from a cold cache and decoded "
-        "by the independent decoder; the count characteristic of an attribute (a UVARI emitted by the attribute itself) for 1..300 and 16383..16385 values through the public Attribute class; non-trivial = value inside the code's domain whose decoding was compared; "
+        "by the independent decoder; the count characteristic of an attribute (a UVARI emitted by the attribute itself) for 1..300 and 16383..16385 values through the public Attribute class; value lists of 1..200 fixed-width numbers with one element outside the domain at either end (must be refused) or at its edge; IDENT/ASCII contents with blanks, control characters and number-like texts; non-trivial = value inside the code's domain whose decoding was compared; "
         "values are distinct by construction within a code")
 ASSUMPTIONS = ["independent decoder mc/rp66.py", "FSINGL checked on float32-representable values, non-finite values "
                "and overflow only (rounding of other doubles is not a defect)"]
